@@ -6,7 +6,8 @@ for id in $ids; do
   f=/verif/benign/$id/patch.diff
   git -C /repo apply --check "$f" 2>/dev/null || { echo "$id: does not apply"; continue; }
   git -C /repo apply "$f"
-  out=$(/verif/bin/olacheck -prop all -no-evidence -v 2>&1 | grep -E "^ *false" | grep -v "LK-CTA\|cycle{cache" | cut -c1-${W:-300})
+  raw=$(/verif/bin/olacheck -prop all -no-evidence -v 2>&1); out=""
+  if echo "$raw" | grep -q "VIOLATION\|olacheck: error\|panic"; then out=$(echo "$raw" | grep -E "^ *false|^VIOLATION|olacheck: error|^panic" | grep -v "LK-CTA\|cycle{cache" | cut -c1-${W:-300}); fi
   git -C /repo checkout -- . ; git -C /repo clean -fdq
   rm -f /verif/replays/*.json
   if [ -z "$out" ]; then echo "$id: silent"; echo silent > /verif/benign/$id/result.txt; else echo "$id: ALARM"; echo "$out"; echo "$out" > /verif/benign/$id/result.txt; fi
